@@ -44,6 +44,42 @@ check(
     "DESIGN.md 2.2, 4 (C17)",
 )
 
+check(
+    "C08", "exploration",
+    "Seeded search over interleavings: 1..4 clients (build / deepcopy / pickle / sc.dcp / process original and copy / run_sim / Result and Project save-load / Scenario.run) interleaved by the choice tape at operation and integration-stage granularity (baton-passing threads, pre-emption at Model.update_comps/pars/links/flush_junctions) with environment disturbances between slices; every Result must be bit-identical to the same configuration run alone in a fresh interpreter under another PYTHONHASHSEED, and deep digests of all inputs must be unchanged after every operation. Sampling of schedules, not proof.",
+    "Trusts the baton scheduler (one thread runs at a time), the digests (sha256 over raw array bytes / canonical object walk) and that pre-emption at operation and integration-stage boundaries is the granularity at which 'interleaved runs' interact.",
+    "deterministic simulation: seeded cooperative interleaving of runs + isolated reference interpreter",
+    "DESIGN.md 2.4, 4 (C08)",
+)
+check(
+    "C10", "fault_enumeration",
+    "Crash-and-restart simulation: for every seeded problem (project, dt, horizon, programs and their start/stop years) EVERY grid index is a crash point; the only surviving state is the saved Initialization, kept on a seeded durable medium (live object, deep copy, binary project file, calibration spreadsheet into a fresh parset); chains of up to 3 restarts. The restarted run is compared index by index with the tail of the uninterrupted run (bit identity on identical grids and lossless media, 1e-9 otherwise). Crash indices are enumerated per problem; problems, media and chains are sampled.",
+    "Assumes the restarted simulation runs on the tail of the original time grid: cases where ProjectSettings.tvec re-anchored at Y yields another grid (inexact dt; property C03's subject) or where a step discontinuity sits on an inexactly reproduced grid value are counted and skipped, not judged.",
+    "deterministic simulation: enumerated crash points + durable-state media + restart chains",
+    "DESIGN.md 4 (C10)",
+)
+check(
+    "C15", "fault_enumeration",
+    "Real calibrate / optimize / reconcile run under a virtual clock (per-evaluation cost, jumps, stalls; time budget reached in microseconds) and a seeded optimiser path; each problem is executed fault-free and then once per crash point k=1..N with an exception injected at the k-th simulation (N = simulations of the fault-free execution; all k enumerated up to a cap), plus BadInitialization / MemoryError / KeyboardInterrupt at sampled k. Oracles: deep digests of caller parset / progset / instructions / settings / data on every exit path; objective values captured at the seam equal a reference re-implementation of the documented objective evaluated on the same model; independent re-simulation of the returned point is no worse than the start, keeps hard targets and bounds, total-spend constraint holds.",
+    "Trusts the SimClock and simulated-entropy stubs, the reference objective written from the docstrings, and sciris.asd (real third-party code). Value oracles are applied to fault-free executions only; side-effect oracles on every exit path.",
+    "deterministic simulation: virtual clock + seeded optimiser + enumerated crash points at the k-th evaluation",
+    "DESIGN.md 2.3, 2.5, 4 (C15)",
+)
+check(
+    "C16", "exploration",
+    "State machine over one project: seeded histories (<= 4) of library editing operations (copy, add/remove/rename population, add/remove transfer / program / parameter / compartment, value edits, zero-uncertainty sampling, reconciliation under the virtual clock, loading a calibration) followed by every storage round trip (framework / databook / program book / calibration spreadsheets, binary project and result files) including lossy calibration files (rows dropped, unknown parameters / populations / columns, reordered rows, blank cells). Reference model: the object rebuilt from its own exported spreadsheet; content equality irrespective of order and metadata; paired simulations (1e-9 first trip, bit identity afterwards).",
+    "Trusts openpyxl/xlsxwriter/pandas as the storage layer (no byte-level faults: not in the property), the canonical content extraction in checks/c16.py, and the virtual clock for reconciliation.",
+    "deterministic simulation: seeded operation histories + storage round trips + named storage faults, reference-model oracle",
+    "DESIGN.md 2.6, 4 (C16)",
+)
+check(
+    "C20", "exploration",
+    "Seeded histories (<= 6) of read-only reporting calls on one shared Result (PlotData with mixed outputs / groups / explicit and default aggregations / time bins, interpolation, cascade values from results and data, coverage / allocation queries, exports, plots). Sequential specification of a read-only API: the Result digest is unchanged after every call; every returned series equals the series of the same single query issued alone on a pristine copy; sums equal the sum of parts, averages lie within parts, number totals equal the sum over populations, cascade stages never increase, cascade data equal the sum of databook entries.",
+    "No fault dimension exists for this property; what the technique contributes is the history/order dimension and the shared-object invariant. Trusts matplotlib's agg backend and the pristine pickle copy.",
+    "deterministic simulation: seeded call histories against a sequential read-only specification (isolated-query oracle)",
+    "DESIGN.md 4 (C20)",
+)
+
 manifest = {
     "version": 1,
     "setup_cmd": "cd /verif && PYTHONHASHSEED=0 MPLBACKEND=agg timeout 600 /venv/bin/python -m atomsim.selfcheck",
